@@ -23,8 +23,8 @@ ASSUMPTIONS = [
     'degenerate case compared with rtol 1e-9, plus the licensed e^-10 relative slack for emission (the cross-section path clamps saturated transmittances, the k path does not)',
     'general case: Jensen bound judged on transmission models; the cross-section run uses the weight-averaged coefficient table (interpolation is linear in the coefficients in linear mode)',
 ]
-RULE = RULE + ' ' + 'Also: the same k-mode model evaluated on two windows of equal length in sequence; the per-layer terms of the emission families in k-mode. Round 9: in half of the cases one parameter (temperature, planet mass or an abundance) is moved alone - the k-mode model is evaluated at the drawn parameters first and then at the new ones, the cross-section model gets the new value before its first evaluation, so every clause compares a k-mode model with a past against a fresh cross-section model. Round 11: a third of the two-grid worlds put the second molecule on a grid reaching beyond the first one at both ends (the model grid ends lie strictly between two of its nodes).'
-REQUIRED = {'live-update:planet_mass': 0.05, 'live-update:abundance': 0.05, 'live-update:temperature': 0.006, 'refused-quadrature-before-use': 0.1, 'zero-weight-point': 0.15, 'requadrature': 0.08, 'grids:same-ends-other-spacing': 0.1, 'grids:other-spacing-wider-ends': 0.04, 'family:transmission': 0.2, 'family:emission': 0.2, 'degenerate': 0.3, 'general': 0.2, 'profile:noniso': 0.3}
+RULE = RULE + ' ' + 'Also: the same k-mode model evaluated on two windows of equal length in sequence; the per-layer terms of the emission families in k-mode. Round 9: in half of the cases one parameter (temperature, planet mass or an abundance) is moved alone - the k-mode model is evaluated at the drawn parameters first and then at the new ones, the cross-section model gets the new value before its first evaluation, so every clause compares a k-mode model with a past against a fresh cross-section model. Round 11: half of the two-grid worlds put the second molecule on a grid reaching beyond the first one at both ends (the model grid ends lie strictly between two of its nodes).'
+REQUIRED = {'live-update:planet_mass': 0.05, 'live-update:abundance': 0.05, 'live-update:temperature': 0.02, 'refused-quadrature-before-use': 0.1, 'zero-weight-point': 0.15, 'requadrature': 0.08, 'grids:same-ends-other-spacing': 0.06, 'grids:other-spacing-wider-ends': 0.03, 'family:transmission': 0.2, 'family:emission': 0.2, 'degenerate': 0.3, 'general': 0.2, 'profile:noniso': 0.3}
 
 
 @st.composite
@@ -102,7 +102,8 @@ def run(out, W, family, case, label):
     # retrieval does); the cross-section model gets the new value before its first evaluation.  Every later clause then compares
     # a k-mode model WITH a past against a fresh cross-section model
     u = case['ngauss'] + len(case['weights'])
-    kind_u = (None, 'temperature', None, 'planet_mass', None, 'abundance')[u % 6]
+    # (an isothermal world moves its temperature; the others the planet mass or an abundance)
+    kind_u = None if u % 2 == 0 else ('temperature' if 'T' in m.fittingParameters else ('planet_mass', 'abundance')[(u // 2) % 2])
     name = None
     if kind_u:
         cands = {'temperature': ['T', 'T_surface', 'T_top'], 'abundance': list(m.chemistry.activeGases)}.get(kind_u, [kind_u])
@@ -139,7 +140,7 @@ def check(case):
     out.cls('ng:%s' % ('1' if len(wts) == 1 else ('2-5' if len(wts) <= 5 else '6-20')))
     try:
         warp_ = case.get('warp')
-        if warp_ and (case['ngauss'] + len(case['weights'])) % 3 == 0:
+        if warp_ and len(case['weights']) % 2 == 0:
             warp_ = 'wider'
         grids = warped_grids(w, warp_)
         if grids:
